@@ -297,6 +297,29 @@ def body_table_reader(env):
               {k: v.strip() for k, v in expr.items()} == wexpr, key='table_reader_misplaces_rows')
 
 
+def body_options(env):
+    """hotspot._setup_postprocess (glue between the input blocks and the analysis): the input and output confidence levels
+    stated for an assembly type and location reach the analysis options unchanged -- every value, the boundary values 0
+    included (symbolic sigmas; two types, two locations each, built-in table names)."""
+    with env.patch(MODS):
+        data = {'Assembly': {}}
+        want = {}
+        for ai, a in enumerate(('fuel', 'blanket')):
+            blocks = {}
+            for hi_, loc in enumerate(('clad_mw', 'coolant')):
+                si = env.nonneg('input_sigma_%s_%s' % (a, loc), hi=10) if env.params['sym'] else [0, 3][(ai + hi_) % 2]
+                so = env.nonneg('output_sigma_%s_%s' % (a, loc), hi=10) if env.params['sym'] else [2, 0][(ai + hi_) % 2]
+                blocks['h%d' % hi_] = {'temperature': loc, 'input_sigma': si, 'output_sigma': so, 'subfactors': 'fftf_clad_mw'}
+                want[(a, loc)] = (si, so)
+            data['Assembly'][a] = {'Hotspot': blocks, 'FuelModel': {'x': 1}}
+        inp = StubSelf(data=data, path='.')
+        out = hs._setup_postprocess(inp)
+        for (a, loc), (si, so) in want.items():
+            got = out.get(a, {}).get(loc, {})
+            env.eq('%s / %s: input confidence level as stated' % (a, loc), got.get('input_sigma', -1.0), si, key='hotspot_options_altered')
+            env.eq('%s / %s: output confidence level as stated' % (a, loc), got.get('output_sigma', -1.0), so, key='hotspot_options_altered')
+
+
 def instances(tier):
     inst = []
     if tier == 'probe':
@@ -320,6 +343,9 @@ def instances(tier):
         for ncol in (3, 5):
             inst.append(dict(label='table-reader[rows %s,%d columns]' % (order, ncol), body=body_table_reader, params={'order': order, 'ncol': ncol},
                              check_vacuity=False))
+    for sym in (True, False):
+        inst.append(dict(label='options[%s]' % ('symbolic levels' if sym else 'levels 0, 2, 3'), body=body_options, params={'sym': sym},
+                         check_vacuity=sym))
     inst.append(dict(label='analyze[three interleaved types, shared locations]', body=body_analyze, params={}, timeout_ms=120000))
     return inst
 
